@@ -164,6 +164,16 @@ impl Cfg {
             cfg.size_class = 5;
             cfg.count = cfg.count.clamp(1, 3);
         }
+        if r.chance(1, 14) {
+            // the frame limit itself: items whose frame payload falls in the last bytes below the
+            // limit (unbatched: 1 + 8 + n; a batch of one: 8 + 8 + n), no compression, byte items
+            cfg.codec = "bytes".into();
+            cfg.comp = "none".into();
+            cfg.level = "-".into();
+            cfg.batch = if r.chance(1, 2) { None } else { Some((1, 3_600_000)) };
+            cfg.size_class = if cfg.batch.is_none() { 6 } else { 7 };
+            cfg.count = 2;
+        }
         cfg
     }
 }
@@ -175,6 +185,9 @@ fn payload_len(r: &mut Rng, class: u64) -> usize {
         2 => r.below(200) as usize,
         3 => 2000 + r.below(3000) as usize,
         5 => 131_000 + r.below(60_000) as usize,
+        // one byte is appended to every item (its index)
+        6 => crate::wire::MAX - 9 - 1 - r.below(12) as usize,
+        7 => crate::wire::MAX - 16 - 1 - r.below(12) as usize,
         _ => r.below(40) as usize,
     }
 }
@@ -235,7 +248,7 @@ where
     let mut got = String::from("got");
     let mut k = 0;
     while k < n {
-        match tokio::time::timeout(Duration::from_millis(1200), subscriber.next()).await {
+        match tokio::time::timeout(Duration::from_millis(if cfg.size_class >= 5 { 6000 } else { 1200 }), subscriber.next()).await {
             Ok(Some(Ok(item))) => {
                 let _ = write!(got, " {}", hex(&to_bytes(&item)));
                 k += 1;
@@ -259,7 +272,7 @@ where
     }
     let _ = writeln!(out, "{}", got);
     loop {
-        match tokio::time::timeout(Duration::from_millis(150), raw_st.next()).await {
+        match tokio::time::timeout(Duration::from_millis(if cfg.size_class >= 5 { 1500 } else { 150 }), raw_st.next()).await {
             Ok(Some(Ok(Frame::Message(p)))) => {
                 let _ = writeln!(out, "raw M {}", hex(&p.message));
             }
@@ -288,6 +301,9 @@ fn dummy_bytes(d: &Dummy) -> Vec<u8> {
 /// items whose encoding is empty (the empty string / empty byte vector), favouring the positions
 /// where framing decisions are taken: the last item of a batch and the last item before finish()
 fn make_empty(r: &mut Rng, k: usize, cfg: &Cfg) -> bool {
+    if cfg.size_class >= 6 {
+        return false;
+    }
     let last = k + 1 == cfg.count;
     let batch_end = matches!(cfg.batch, Some((s, _)) if s > 0 && (k + 1) % (s as usize) == 0);
     if last || batch_end {
@@ -369,7 +385,7 @@ pub fn main(args: &[String]) {
                     raw = RawPeer::connect_trusted(addr, &certs).await.expect("raw peer");
                 }
                 let cfg = Cfg::random(&mut r);
-                run_case(&client, &raw, seed, i, &cfg, &mut out).await;
+                crate::guard_case!(out, 300, run_case(&client, &raw, seed, i, &cfg, &mut out));
             }
         } else {
             let text = std::fs::read_to_string(&args[1]).unwrap();
@@ -381,7 +397,7 @@ pub fn main(args: &[String]) {
                         raw = RawPeer::connect_trusted(addr, &certs).await.expect("raw peer");
                     }
                     let cfg = Cfg::parse(l);
-                    run_case(&client, &raw, 77, i, &cfg, &mut out).await;
+                    crate::guard_case!(out, 300, run_case(&client, &raw, 77, i, &cfg, &mut out));
                     i += 1;
                 }
             }
